@@ -78,6 +78,12 @@ func c10Alphabet() []c10Op {
 		}
 	}
 	ops = append(ops, c10Op{Kind: "restart"}, c10Op{Kind: "tick"})
+	// a scrape whose payload spans several parser blocks (about 150 KiB)
+	ops = append(ops, c10Op{Kind: "scrape", Hash: 1, N: 4000})
+	// an update that the sidecar rejects because its update callbacks fail (Prometheus refuses the reload)
+	for _, a := range [][]c10T{{}, {{1, "j1", ""}}, {{1, "j1", "in_transfer"}, {2, "j1", ""}}} {
+		ops = append(ops, c10Op{Kind: "update-rejected", A: a})
+	}
 	return ops
 }
 
@@ -97,6 +103,8 @@ type c10Model struct {
 	Status map[uint64]*c10E
 	Stored []c10T
 	IdleAt *time.Time
+	// StoredIdle is the idle instant written with the last acknowledged update
+	StoredIdle *time.Time
 }
 
 func (m *c10Model) clone() *c10Model {
@@ -109,6 +117,10 @@ func (m *c10Model) clone() *c10Model {
 	if m.IdleAt != nil {
 		t := *m.IdleAt
 		n.IdleAt = &t
+	}
+	if m.StoredIdle != nil {
+		t := *m.StoredIdle
+		n.StoredIdle = &t
 	}
 	return n
 }
@@ -137,6 +149,11 @@ func (m *c10Model) apply(op c10Op, now time.Time) {
 		if len(n) != 0 {
 			m.IdleAt = nil
 		}
+		m.StoredIdle = nil
+		if m.IdleAt != nil {
+			t := *m.IdleAt
+			m.StoredIdle = &t
+		}
 	case "scrape":
 		e := m.Status[op.Hash]
 		if e == nil {
@@ -164,6 +181,12 @@ func (m *c10Model) apply(op c10Op, now time.Time) {
 			n[t.Hash] = &c10E{State: t.State, Health: "unknown", Series: c10Est[t.Hash][0], Total: c10Est[t.Hash][1]}
 		}
 		m.Status = n
+		// the start resumes what the last acknowledged update stored (a rejected update in between is gone)
+		m.IdleAt = nil
+		if m.StoredIdle != nil {
+			t := *m.StoredIdle
+			m.IdleAt = &t
+		}
 	}
 }
 
@@ -246,6 +269,14 @@ func (r *c10Real) apply(op c10Op) error {
 		}
 		r.setN(op.N)
 		r.sc.Scrape(rig.ProxyURL(job, op.Hash, "http", fmt.Sprintf("t%d:80", op.Hash), "/metrics", nil))
+	case "update-rejected":
+		r.sc.CallbackErr = fmt.Errorf("scripted: reload failed")
+		err := r.apply(c10Op{Kind: "update", A: op.A})
+		r.sc.CallbackErr = nil
+		if err == nil {
+			return fmt.Errorf("an update whose callbacks fail was acknowledged")
+		}
+		return nil
 	case "scrape-during-update":
 		job := r.jobs[op.Hash]
 		if job == "" {
@@ -345,6 +376,26 @@ func c10Run(dir string, ops []c10Op) (c10View, c10View, string, error) {
 			}
 			continue
 		}
+		if op.Kind == "update-rejected" {
+			// the statement does not say whether a rejected update takes effect in memory; whichever it is,
+			// entries, states, counters and idle-since must be those of ONE of the two (the store keeps the
+			// last acknowledged assignment either way)
+			m1 := m.clone()
+			stored, storedIdle := append([]c10T{}, m.Stored...), m.StoredIdle
+			m1.apply(c10Op{Kind: "update", A: op.A}, real.now)
+			m1.Stored, m1.StoredIdle = stored, storedIdle
+			rv, _, err := real.view()
+			if err != nil {
+				return c10View{}, c10View{}, "", err
+			}
+			if k, _ := c10Compare(m1.view(), rv); k == "" {
+				m = m1
+			} else if k, _ := c10Compare(m.view(), rv); k != "" {
+				_, key, _ := real.view()
+				return m1.view(), rv, key + "|REJECTED", nil
+			}
+			continue
+		}
 		m.apply(op, real.now)
 	}
 	rv, key, err := real.view()
@@ -427,6 +478,10 @@ func init() {
 							continue
 						}
 						if kind, detail := c10Compare(mv, rv); kind != "" {
+							if strings.HasSuffix(key, "|REJECTED") {
+								kind = "rejected-update:" + kind
+								detail += " (the last update was rejected because its callbacks failed; the state is neither that of the update applied nor that of the update ignored)"
+							}
 							if strings.HasSuffix(key, "|INFLIGHT") {
 								kind = "in-flight-update:" + kind
 								detail += " (an update arrived while the scrape was in flight; neither update-then-scrape nor scrape-then-update explains the state)"
